@@ -164,7 +164,7 @@ impl Check for HistoryCheck {
             });
             match q {
                 Err(p) => {
-                    if p.loc.contains("/verif/sim/") {
+                    if p.is_harness() {
                         panic!("harness panic: {} at {}", p.msg, p.loc);
                     }
                     out.violations.push(panic_violation("C13", "old_handle_unusable", &p, k));
@@ -196,7 +196,7 @@ impl Check for HistoryCheck {
                 });
                 match ex {
                     Err(p) => {
-                        if p.loc.contains("/verif/sim/") {
+                        if p.is_harness() {
                             panic!("harness panic: {} at {}", p.msg, p.loc);
                         }
                         out.violations.push(panic_violation("C13", "old_handle_unusable", &p, k));
